@@ -10,7 +10,7 @@ require (
 	google.golang.org/grpc v1.9.2
 )
 
-replace github.com/youzan/ZanRedisDB => /tmp/sv-C07-20824
+replace github.com/youzan/ZanRedisDB => /tmp/sv-C14-20557
 
 replace github.com/youzan/gorocksdb => /verif/build/third_party/gorocksdb
 
